@@ -153,6 +153,12 @@ def gen_case(rng, i, dbinfos):
         if any(p["name"].lower() == nm.lower() for p in phases):
             continue
         phases.append(gen_phase(rng, info, nm, pool))
+    # a gas held at a fixed partial pressure (only SI = target is judged here; the fugacity-adjusted target is the engine's, C19)
+    if rng.random() < 0.12 and "CO2(g)" in info["phases"] and len(phases) < 6:
+        if all(d["kw"] != "C(4)" for d in comps):
+            comps.append({"kw": "C(4)", "conc": float(fmt(loguni(rng, 1e-5, 0.02)))})
+        phases.append({"name": "CO2(g)", "si": round(rng.uniform(-4, -0.5), 3), "moles": rng.choice([10.0, 10.0, 0.0, float(fmt(loguni(rng, 1e-4, 1)))]),
+                       "gas": True})
     # targeted: two polymorphs defined in the input whose log K differ by 1e-8 … 1e-2 (around the thresholds tol/ln10,
     # 100·tol/ln10 and the property's 1e-6): the more soluble one must end absent unless the difference is below tolerance
     if rng.random() < 0.14:
